@@ -73,6 +73,7 @@ func (k *Kernel) procMain(p *Proc) {
 	res := &ProcResult{}
 	ctx, cancel := context.WithCancel(context.Background())
 	stdout := &stampWriter{k: k, failAt: spec.StdoutFailAt, failAll: spec.StdoutFailAll}
+	p.out = stdout
 	stderr := &bufCloser{}
 	var stdinReader *faultReader
 
@@ -192,6 +193,7 @@ func (k *Kernel) procMain(p *Proc) {
 			}
 			runErr = action.Run(ctx, proc, spec.Program, "", outfile)
 		}
+		p.ending.Store(true)
 		if p.cancelledByCtl() && ctx.Err() != nil {
 			runErr = query.NewSignalReceived(syscall.SIGINT)
 		}
